@@ -6,7 +6,7 @@ for d in sorted(glob.glob('/verif/seeded/C*')):
     m=json.load(open(d+'/meta.json'))
     readme=open(d+'/README.md').read().splitlines()
     title=next((l.lstrip('# ').strip() for l in readme if l.startswith('#')), '')
-    title=re.sub(r'^C\d+\s*/\s*(mut(ation)?\s*\d+)\s*[-—:]*\s*','',title)
+    title=re.sub(r'^C\d+\s*/\s*(seed\s*\d+\s*/?\s*)?(mut(ation)?\s*\d+)\s*[-—–:]*\s*','',title)
     det=m.get('detected_by') or {}
     sigs=det.get('violation_signatures') or []
     short=sorted({re.sub(r':[^:]*$','',s) if s.count(':')>2 else s for s in sigs})
